@@ -5,6 +5,26 @@ import os
 
 VERIF = os.path.dirname(os.path.dirname(os.path.abspath(__file__)))
 TECH = 'machine-checked proof in Coq 8.16 (model + theorems) + fail-closed translator + model/implementation correspondence'
+ORACLES = {
+    'C01': 'multi-field requests on one pipeline object in several orders against single-field values',
+    'C02': 'multi-field request order; every operand observed before and after composing',
+    'C03': 'key mappings of Join / GroupBy / Split computed once per pipeline object; HashDigest executes exactly what get_hash executes',
+    'C04': 'every call of every history against the cache-free pipeline, column-cache histories and id-order variants included',
+    'C05': 'families of dataset pipelines differing in one ingredient: equal node-hash digests mean equal values',
+    'C06': 'families of sub-pipeline variants: equal static hashes / node-hash digests mean equal functions / values',
+    'C07': 'digests of a field and of ids under 13 neutral rewrites in 3 interpreters',
+    'C08': 'table sizes and recency after every operation; key mappings computed once',
+    'C09': 'operands unchanged by composing; instances of one class independent; every bracketing gives the same pipeline',
+    'C10': 'the three entry points agree; every function, the decorated one included, runs once per call',
+    'C11': 'every 2-thread schedule of bounded length (column caches included) gives the sequential results; tables touched under their lock only',
+    'C12': 'every crash point x fault set: later processes return the cache-free values, recompute at most once, store again',
+    'C13': 'the accept / reject outcome does not depend on how the same layers are combined or reused',
+    'C14': 'owner-only evaluation; hash-collision families', 'C15': 'other fields untouched; a Filter object follows the dataset it is connected to; hash-collision families',
+    'C16': 'no field value (not even None) for an id outside the join; hash-collision families', 'C17': 'key mappings computed once; hash-collision families',
+    'C18': 'the error is repeatable; targeted optional chains ending in caches',
+    'C19': 'signature, graph, entry counts, cache objects, values, digests and failures of copy and original',
+    'C20': 'Python-level call counts of build, compile and call on stacks of growing depth',
+}
 CLAIMS = {
     'C01': ('Theorems over all DAG shapes and arbitrary generator trees: the stack machine simulates a recursive evaluator (Sim.v), '
             'which under the eviction-budget invariant returns the cache-free composition of the user functions (L2.v, Counts.v); '
@@ -20,9 +40,8 @@ CLAIMS = {
             'Good-preserving interference: every call returns the value of the cache-free recursive semantics; via the store invariant '
             '"every entry key is a hash whose inverse reading is the stored value" (hash soundness over the regenerated hash makers) and '
             'the machine/evaluator/spec refinement. Real pipelines with CacheToRam/CacheToDisk are run against the model on generated histories.',
-            'a failing call is proved to stop with a user exception and nothing else, but that the store still meets the invariant AFTER a failed call '
-            '("leaves nothing behind") is decided by the correspondence and the regenerated write-after-parent fact, not by a theorem; keys without numeric '
-            'leaves (else known finding F3); '
+            'failing calls included: every call of every history ends with the cache-free value or a user exception and leaves the store within its '
+            'invariant (theorem over a store with a ghost write log); keys without numeric leaves (else known finding F3); '
             'CacheColumns is not in the VM model: decided by oracles against the cache-free pipeline; serializer round trip and real disk trusted'),
     'C05': ('Theorems: the value of every node is the inverse reading of its node hash, for all graphs without Silent arguments and all '
             'interpretations of the user functions (over the regenerated _make_hash bodies); hence equal hashes give equal values across graphs; '
@@ -143,7 +162,7 @@ def main():
                 'level_claimed': {'category': 'proof', 'text': text, 'design_ref': f'DESIGN.md section 6 ({pid}) and section 11'},
                 'level_note': 'trusted: Coq kernel, tools/translate.py, the hand-written parts of the model named in the evidence file, '
                               'the case-shard comparison (Model/CheckLib.v); partial: ' + note,
-                'technique': TECH,
+                'technique': TECH + ('; plus model-independent oracles on the real code: ' + ORACLES[pid] if pid in ORACLES else ''),
             })
         else:
             m['not_applicable'].append({'property_id': pid, 'reason': 'check not built yet in this session (work in progress, see DESIGN.md section 10)'})
